@@ -206,7 +206,19 @@ def refusal(repo, res):
         res.check(not wrong_off, f"Unit.{dunder}:surviving-offset", fn.where(), f"where an offset unit is combined with a dimensionless partner, the result keeps that unit's zero point (offset)" + (f" - {wrong_off[0]}" if wrong_off else ""), "the offset of the offset-carrying operand", wrong_off[:4], rid=r2)
     fnp = uo.func("Unit.__pow__")
     res.fn(fnp)
-    guarded[ast.Pow] = _offset_guarded(fnp)[0]
+    # ** refuses offset units exactly when every returning path of Unit.__pow__ either knows the offset to be zero or is
+    # the exponent-1 path that keeps it (the path analysis of C05-R8): a refusal for some other exponent only would let
+    # np.sqrt(degC) through
+    from engine.report import Result as _Res
+    from rules import c05 as _c05
+
+    _tmp = _Res("C05")
+    try:
+        _c05.power_offset_rule(repo, _tmp)
+        pow_ok = not _tmp.findings
+    except AnalysisError:
+        pow_ok = False
+    guarded[ast.Pow] = _offset_guarded(fnp)[0] and pow_ok
     reg = registry(repo)
     rules = {}
     for name, (rule, gate) in reg.items():
@@ -441,8 +453,11 @@ def guards(repo, res):
 
 
 MUTANTS = [
-    Mutant("sqrt-refusal-removed", ARR, "_sqrt_unit", "    _refuse_offset_unit(unit)\n", "", ("C08-R2",)),
-    Mutant("refusal-helper-hollowed", ARR, "_refuse_offset_unit", "if unit.base_offset:", "if unit.base_offset and False:", ("C08-R2",)),
+    # Unit.__pow__ refuses offset units itself since the repair of the unchanged tree (DESIGN 12.3): removing the explicit
+    # refusal of a power rule alone changes nothing (twins); together with the refusal in __pow__ it does
+    Mutant("twin-sqrt-refusal-removed", ARR, "_sqrt_unit", "    _refuse_offset_unit(unit)\n", "", (), benign=True),
+    Mutant("twin-refusal-helper-hollowed", ARR, "_refuse_offset_unit", "if unit.base_offset:", "if unit.base_offset and False:", (), benign=True),
+    Mutant("sqrt-and-pow-refusals-removed", ARR, "_sqrt_unit", "    _refuse_offset_unit(unit)\n", "", ("C08-R2",), more=[(UO, "Unit.__pow__", "            if p != 1:\n                raise InvalidUnitOperation(", "            if p == 0:\n                raise InvalidUnitOperation(", 1)]),
     Mutant("preserve-scale-test-removed", ARR, "_preserve_units", "        if unit1.base_value != unit2.base_value:", "        if False:", ("C08-R3",)),
     Mutant("degF-offset", LUT, None, "-459.67", "-459.76", ("C08-R1",)),
     Mutant("delta-degF-scale", LUT, None, '            "delta_degF",\n            (\n                kelvin_per_rankine,', '            "delta_degF",\n            (\n                1.0,', ("C08-R1",)),
